@@ -378,6 +378,40 @@ fn check_extra(extra: &Extra, sink: &Sink) {
     }
 }
 
+/// Every line-comment form of every grammar's kit, with attribute values (quoted and unquoted)
+/// that contain the form's own comment marker: (kit index, form index).
+fn check_marker_in_value(case: &(usize, usize), sink: &Sink) {
+    use crate::props::langkit::{FormKind, KITS};
+    let kit = &KITS[case.0];
+    let form = kit.forms[case.1];
+    if form.kind != FormKind::Line {
+        return;
+    }
+    let m = form.open;
+    let quoted = format!("see {m} and {m}{m} end");
+    // Unquoted values are limited to letters, digits, `-` and `_`: only a marker made of dashes
+    // can sit in one.
+    let unquoted = if m.chars().all(|c| c == '-') { format!("u{m}{m}v") } else { "uv".to_string() };
+    let tag = format!("<block name=\"a\" note=\"{quoted}\" k={unquoted} last=\"{m}\">");
+    let text = format!("{}{m} {tag}\n{}\n{m} </block> {m} trailing\n{}", kit.prologue, kit.code[0], kit.epilogue);
+    let input = json!({"marker_in_value": [case.0, case.1]});
+    sink.exec();
+    let outcome = run_list(kit.files[0], &text);
+    let expected: Vec<(String, String)> = vec![("k".into(), unquoted.clone()), ("last".into(), m.to_string()), ("name".into(), "a".into()), ("note".into(), quoted.clone())];
+    match &outcome {
+        Outcome::Report { blocks, .. } => {
+            let ok = blocks.len() == 1 && blocks[0].attributes == expected;
+            sink.outcome(format!("marker-in-value:{}", if ok { "agree" } else { "differ" }));
+            if !ok {
+                sink.fail(format!("C05:marker-in-value:wrong-attributes:{}", m), format!("{} ({}): printed {expected:?}, parsed {:?}\n--- file ---\n{text}", kit.files[0], kit.grammar, blocks.iter().map(|b| b.attributes.clone()).collect::<Vec<_>>()), input);
+            }
+        }
+        Outcome::Error { message, .. } => sink.fail(format!("C05:marker-in-value:error:{}", m), format!("{}: {}\n--- file ---\n{text}", kit.files[0], first_line(message)), input),
+        Outcome::Panic { message } => sink.fail(format!("C05:panic:{}", first_line(message)), format!("{}: panic {message}\n--- file ---\n{text}", kit.files[0]), input),
+    }
+    sink.nontrivial();
+}
+
 pub fn run(cfg: &Cfg, sink: &Arc<Sink>) -> Report {
     let mut report = Report::new("states = attribute lists; an attribute is (name ∈ {a, b-1, k_2, é, duplicate of the first}, value form ∈ {bare, unquoted, empty, with space, `>`, other quote, `=<`, `</block>`, non-ASCII, a whole start tag in quotes}, separator ∈ {space, tab+space, newline}, `=` layout ∈ {=, spaced, on its own line}); each state is printed into `#`, `/* */`, `<!-- -->`, `//`, SQL `--` and Rust `///` hosts with 3 closing spellings and 8 noises before/after, parsed by the real code and compared with the printed list (last duplicate wins) and the position of `<`; plus every look-alike × noise × host alone and beside real blocks, and every end-tag spelling; non-trivial = at least one attribute / every look-alike and end-tag case");
     report.assume("tree-sitter delivers the host comments (C03 covers that)");
@@ -410,6 +444,20 @@ pub fn run(cfg: &Cfg, sink: &Arc<Sink>) -> Report {
         false,
     ));
     report.cap(cfg.tier.pick("3 attributes over the full alphabet only in the thorough tier; lists of 4–5 attributes over 5 variants, 6 in the thorough tier", "the third attribute of the full alphabet uses single-space separators and a bare `=`; lists of 4–6 attributes over 5 variants"));
+    let mut marker_cases = Vec::new();
+    for (ki, kit) in crate::props::langkit::KITS.iter().enumerate() {
+        for fi in 0..kit.forms.len() {
+            marker_cases.push((ki, fi));
+        }
+    }
+    report.phase(engine::explore(
+        "comment marker inside attribute values, every line-comment form of every grammar",
+        "23 grammars × their line-comment forms: quoted and unquoted values holding the form's own marker once and doubled",
+        Grid { cases: marker_cases, check: |c: &(usize, usize), sink: &Sink| check_marker_in_value(c, sink) },
+        sink,
+        cfg.threads,
+        false,
+    ));
     let mut cases = Vec::new();
     for l in 0..LOOKALIKES.len() {
         for n in 0..NOISE.len() {
@@ -440,6 +488,10 @@ pub fn run(cfg: &Cfg, sink: &Arc<Sink>) -> Report {
 }
 
 pub fn replay(cfg: &Cfg, input: &Value, sink: &Arc<Sink>) {
+    if let Some(c) = input.get("marker_in_value").and_then(Value::as_array) {
+        check_marker_in_value(&(c[0].as_u64().unwrap_or(0) as usize, c[1].as_u64().unwrap_or(0) as usize), sink);
+        return;
+    }
     if let Some(list) = input.get("attrs").and_then(Value::as_array) {
         let attrs: Vec<Attr> = list
             .iter()
